@@ -425,6 +425,16 @@ func (g *Gen) Expr(depth int) *Expr {
 		e := &Expr{Kind: "struct"}
 		used := map[string]bool{}
 		for i := 0; i < n; i++ {
+			if g.R.Intn(12) == 0 {
+				// an embedded predeclared interface: `any` / `error` are type NAMES and may be embedded; their
+				// literal spellings (`interface {}`) may not (seeded change C11-n)
+				pn := []string{"any", "error"}[g.R.Intn(2)]
+				if !used[pn] {
+					used[pn] = true
+					e.Fields = append(e.Fields, Field{Name: pn, Type: &Expr{Kind: pn, Name: pn}, Embedded: true, Tag: tags[g.R.Intn(len(tags))]})
+				}
+				continue
+			}
 			if g.R.Intn(4) == 0 {
 				// embedded named type by value or pointer
 				nt := g.named(0, false)
